@@ -30,6 +30,9 @@ type c24Case struct {
 	// is run in this process BEFORE the first run and between the two runs, while the separate process runs ROM alone:
 	// nothing the emulator remembers about one cartridge may be taken for another's
 	Twin string `json:"twin,omitempty"`
+	// Cfg: outputs left out of the machine (gameboy.Config): bit 0 = DisableVideoOutput, bit 1 = DisableAudioOutput;
+	// a machine without a display or speakers is still the same machine and must replay just the same
+	Cfg int `json:"cfg,omitempty"`
 }
 
 // twinROM: MBC1+RAM images with identical headers (non-zero checksums) whose programs differ only in immediate
@@ -86,13 +89,19 @@ func c24ROMPath(c *Ctx, name string) string {
 
 // c24Run returns one hash per frame plus a final full-state hash.
 func c24Run(rom string, sched, frames int, stallAt ...int) (hs []uint64, err error) {
+	return c24RunCfg(rom, sched, frames, 0, stallAt...)
+}
+
+func c24RunCfg(rom string, sched, frames, cfg int, stallAt ...int) (hs []uint64, err error) {
 	defer func() {
 		if p := recover(); p != nil {
 			err = fmt.Errorf("crash: %v", p)
 		}
 	}()
-	g := newGB(rom, true, true, true)
-	g.onFrame(func(n int, _ *image.RGBA) bool { return false })
+	g := newGB(rom, cfg&1 == 0, cfg&2 == 0, true)
+	if cfg&1 == 0 {
+		g.onFrame(func(n int, _ *image.RGBA) bool { return false })
+	}
 	ctx := context.Background()
 	for f := 0; f < frames; f++ {
 		if len(stallAt) > 0 && f == stallAt[0] {
@@ -115,7 +124,11 @@ func init() {
 	Workers["c24"] = func(args []string) int {
 		sched, _ := strconv.Atoi(args[1])
 		frames, _ := strconv.Atoi(args[2])
-		hs, err := c24Run(args[0], sched, frames)
+		cfg := 0
+		if len(args) > 3 {
+			cfg, _ = strconv.Atoi(args[3])
+		}
+		hs, err := c24RunCfg(args[0], sched, frames, cfg)
 		if err != nil {
 			fmt.Println("ERR", err)
 			return 3
@@ -131,9 +144,9 @@ func c24Check(c *Ctx) func(l *explore.Local, _ struct{}, cs c24Case) *explore.Fa
 	return func(l *explore.Local, _ struct{}, cs c24Case) *explore.Fail {
 		rom := c24ROMPath(c, cs.ROM)
 		if cs.Twin != "" {
-			c24Run(c24ROMPath(c, cs.Twin), cs.Sched, 3)
+			c24RunCfg(c24ROMPath(c, cs.Twin), cs.Sched, 3, cs.Cfg)
 		}
-		a, err := c24Run(rom, cs.Sched, cs.Frames)
+		a, err := c24RunCfg(rom, cs.Sched, cs.Frames, cs.Cfg)
 		if err != nil {
 			// a ROM the emulator cannot load or that executes an undefined opcode is not a determinism question
 			l.OutcomeStr("unloadable")
@@ -144,12 +157,12 @@ func c24Check(c *Ctx) func(l *explore.Local, _ struct{}, cs c24Case) *explore.Fa
 		if cs.Twin != "" {
 			other = c24ROMPath(c, cs.Twin)
 		}
-		c24Run(other, (cs.Sched+1)%len(btnSchedules), 3)
+		c24RunCfg(other, (cs.Sched+1)%len(btnSchedules), 3, cs.Cfg)
 		var stall []int
 		if cs.Stall {
 			stall = []int{cs.Frames / 3}
 		}
-		b, err := c24Run(rom, cs.Sched, cs.Frames, stall...)
+		b, err := c24RunCfg(rom, cs.Sched, cs.Frames, cs.Cfg, stall...)
 		if err != nil {
 			return explore.Failf("a run crashes although the same run completed before", "%s: %v", cs.ROM, err)
 		}
@@ -160,7 +173,7 @@ func c24Check(c *Ctx) func(l *explore.Local, _ struct{}, cs c24Case) *explore.Fa
 					if i == len(x)-1 {
 						where = "the final full state (64 KiB, cartridge RAM, registers)"
 					}
-					return explore.Failf("two runs of the same ROM and inputs differ", "%s schedule %d (%s): first difference at %s", cs.ROM, cs.Sched, what, where)
+					return explore.Failf("two runs of the same ROM and inputs differ", "%s schedule %d (%s; video output %v, audio output %v): first difference at %s", cs.ROM, cs.Sched, what, cs.Cfg&1 == 0, cs.Cfg&2 == 0, where)
 				}
 			}
 			return nil
@@ -172,7 +185,7 @@ func c24Check(c *Ctx) func(l *explore.Local, _ struct{}, cs c24Case) *explore.Fa
 		if f := diff(a, b, what); f != nil {
 			return f
 		}
-		out, err := exec.Command(c.SelfExe, "worker", "c24", rom, strconv.Itoa(cs.Sched), strconv.Itoa(cs.Frames)).Output()
+		out, err := exec.Command(c.SelfExe, "worker", "c24", rom, strconv.Itoa(cs.Sched), strconv.Itoa(cs.Frames), strconv.Itoa(cs.Cfg)).Output()
 		if err != nil {
 			return explore.Failf("the run in a separate process fails although it completed in this process", "%s: %v", cs.ROM, err)
 		}
@@ -213,7 +226,7 @@ func c24ROMs(repo string) []string {
 func init() {
 	register("C24", "exploration", func(c *Ctx) {
 		if c.R != nil {
-			c.R.Rule = "every non-empty ROM under testdata x fixed button schedules: the ROM is run through the real gameboy.New / runFrame with display, speakers and serial writer attached, twice in this process (with another ROM run in between) and once in a separate process; after every frame a hash of (registers, every writable memory region, ROM-window probes, frame pixels, drained samples, serial bytes, RTC and APU generator state) and at the end a hash of the full 64 KiB space and the cartridge RAM dump must agree between all three runs; plus two cartridges with byte-identical headers and different programs, each run after and between runs of the other in this process and alone in the separate process; plus seven synthetic guest programs (one of them switches the noise generator between its long and short register at 96 phases after a trigger), and three runs in which the host stalls the second run for 2.3 s of wall-clock time between two frames (emulated time is counted in machine cycles, so nothing may change); a case = one (ROM, schedule); non-trivial = distinct final state hashes"
+			c.R.Rule = "every non-empty ROM under testdata x fixed button schedules: the ROM is run through the real gameboy.New / runFrame with display, speakers and serial writer attached, twice in this process (with another ROM run in between) and once in a separate process; after every frame a hash of (registers, every writable memory region, ROM-window probes, frame pixels, drained samples, serial bytes, RTC and APU generator state) and at the end a hash of the full 64 KiB space and the cartridge RAM dump must agree between all three runs; plus two cartridges with byte-identical headers and different programs, each run after and between runs of the other in this process and alone in the separate process; plus six ROMs on machines built without video and / or audio output; plus seven synthetic guest programs (one of them switches the noise generator between its long and short register at 96 phases after a trigger), and three runs in which the host stalls the second run for 2.3 s of wall-clock time between two frames (emulated time is counted in machine cycles, so nothing may change); a case = one (ROM, schedule); non-trivial = distinct final state hashes"
 			c.R.Assumptions = []string{"differential replay: there is no nondeterministic choice inside the emulator to enumerate; the check demonstrates that rather than assuming it", "ROMs that the constructor rejects or that run into an undefined opcode are skipped"}
 		}
 		frames, scheds := 60, []int{0, 2}
@@ -240,6 +253,14 @@ func init() {
 				for _, pr := range [][2]string{{"synthetic:twin-a", "synthetic:twin-b"}, {"synthetic:twin-b", "synthetic:twin-a"}} {
 					if !yield(c24Case{ROM: pr[0], Twin: pr[1], Sched: 0, Frames: 5}) {
 						return
+					}
+				}
+				// machines built without a display and / or without speakers
+				for _, r := range []string{"blargg/dmg_sound/rom_singles/03-trigger.gb", "blargg/dmg_sound/rom_singles/09-wave read while on.gb", "blargg/cpu_instrs/cpu_instrs.gb", "synthetic:noise-width-phases", "synthetic:lcd-and-sound-off", "synthetic:twin-a"} {
+					for cfg := 1; cfg <= 3; cfg++ {
+						if !yield(c24Case{ROM: r, Sched: 0, Frames: frames, Cfg: cfg}) {
+							return
+						}
 					}
 				}
 				// a stalled host: at least 70 frames, so that more than one emulated second passes
